@@ -98,6 +98,14 @@ func (dpq *DelayedPriorityQueue) Enqueue(
 		dpq.mutex.Lock()
 		defer dpq.mutex.Unlock()
 		dpq.requestCounts[req.priority]--
+		select {
+		case <-req.doneCh:
+			// processed while the TTL fired: the window slot is already taken
+			return true, nil
+		default:
+		}
+		// tell processQueueItems that nobody waits for this request anymore
+		req.abandoned = true
 		return false, nil
 	}
 }
@@ -169,17 +177,20 @@ func (dpq *DelayedPriorityQueue) processQueueItems() {
 		dpq.cl.Logger.Trace().
 			Str("requestID", req.ID).
 			Msgf("Attempt to process queued request")
-		select {
-		case req.doneCh <- struct{}{}:
+		// doneCh has a buffer of one, so the hand-over does not depend on the
+		// waiter having reached its select yet; only a request whose waiter
+		// gave up (TTL) is skipped.
+		if !req.abandoned {
+			req.doneCh <- struct{}{}
 			close(req.doneCh)
 			dpq.currentWindowCounter++
 			verifhook.Point("dpq.pop", "id", req.ID, "delivered", true)
 			dpq.cl.Logger.Trace().Str("requestID", req.ID).
 				Msgf("notified successful request processing to req.doneCh")
-		default:
+		} else {
 			verifhook.Point("dpq.pop", "id", req.ID, "delivered", false)
 			dpq.cl.Logger.Trace().Str("requestID", req.ID).
-				Msgf("req.doneCh already closed")
+				Msgf("request no longer waits (TTL)")
 		}
 		dpq.cl.Logger.Trace().Msgf("request %s processed in queue", req.ID)
 	}
